@@ -81,6 +81,12 @@ def run(case, ctx, rng):
                 o = new()
                 for ln in (n // 3, n, min(5, n), n, max(0, n - 1)):
                     ctx.eq('same-object:enc==M^KS', call(lambda: o.enc(v, M[:ln])), want[:ln], length=ln, **det)
+                o = new()
+                X = rng.randbytes(64)
+                hv = call(lambda: bytes(o.hash(X)))
+                if ciph == 'salsa20':
+                    ctx.eq('salsa:hash==core', hv, rs.salsa_hash(X), keyed_object=True, **det)
+                ctx.eq('same-object:enc==M^KS', call(lambda: o.enc(v, M)), want, after='hash(X) on the keyed object', **det)
                 for cut in sorted({0, 1, n // 2, max(0, n - 1), 64 if n > 64 else 0}):
                     ctx.eq('prefix', call(lambda: new().enc(v, M[:cut])), want[:cut], cut=cut, **det)
         else:
